@@ -1,4 +1,262 @@
+(* C06 — Bitwise logic, bit counts and bit manipulation act on the exact bit pattern.
+   A := uval w a, M := Mod w n = 2^BITS, BITS := bits w n = w * n.
+   Spec functions (defined in Proofs/BitsLemmas.v, Proofs/Bits.v, Prim.v):
+     popcount k x  = number of i in [0,k) with Z.testbit x i      (Fixpoint over k)
+     bitlen x      = 0 if x = 0, else Z.log2 x + 1                (characterised by C06_bitlen_spec)
+     next_pow2 x   = 2 ^ Z.log2_up x                              (characterised by C06_next_pow2_spec)
+     byte_of x i   = (x / 256^i) mod 256
+   BInt forwards every one of these operations to the same digit array, so the
+   statements cover both signednesses (I_is_power_of_two is the only signed variant). *)
 From Bnum Require Import Base Prim.
-Theorem C06_placeholder : forall w n ds, 0 <= w -> wf w n ds -> 0 <= uval w ds < Mod w n.
-Proof. exact uval_bounds. Qed.
-Print Assumptions C06_placeholder.
+From Bnum.Model Require Import Core Shift Bits.
+From Bnum.Proofs Require Import BitAddrC06 BitsLemmas Cmp Bits.
+
+(* ---- the addressing lemma: bit i of the value is bit (i mod w) of digit (i / w) ---- *)
+Theorem C06_bit_addressing : forall w n ds i, 0 < w -> wf w n ds -> 0 <= i ->
+  Z.testbit (uval w ds) i = Z.testbit (nth (Z.to_nat (i / w)) ds 0) (i mod w).
+Proof. exact testbit_uval. Qed.
+Print Assumptions C06_bit_addressing.
+
+(* ---- logic ---- *)
+Theorem C06_and : forall w n a b, 0 < w -> wf w n a -> wf w n b ->
+  wf w n (bitand a b) /\ uval w (bitand a b) = Z.land (uval w a) (uval w b) /\
+  forall i, 0 <= i -> Z.testbit (uval w (bitand a b)) i = Z.testbit (uval w a) i && Z.testbit (uval w b) i.
+Proof. exact bitand_ok. Qed.
+Print Assumptions C06_and.
+
+Theorem C06_or : forall w n a b, 0 < w -> wf w n a -> wf w n b ->
+  wf w n (bitor a b) /\ uval w (bitor a b) = Z.lor (uval w a) (uval w b) /\
+  forall i, 0 <= i -> Z.testbit (uval w (bitor a b)) i = Z.testbit (uval w a) i || Z.testbit (uval w b) i.
+Proof. exact bitor_ok. Qed.
+Print Assumptions C06_or.
+
+Theorem C06_xor : forall w n a b, 0 < w -> wf w n a -> wf w n b ->
+  wf w n (bitxor a b) /\ uval w (bitxor a b) = Z.lxor (uval w a) (uval w b) /\
+  forall i, 0 <= i -> Z.testbit (uval w (bitxor a b)) i = xorb (Z.testbit (uval w a) i) (Z.testbit (uval w b) i).
+Proof. exact bitxor_ok. Qed.
+Print Assumptions C06_xor.
+
+Theorem C06_not : forall w n a, 0 < w -> wf w n a ->
+  wf w n (bitnot w a) /\ uval w (bitnot w a) = Mod w n - 1 - uval w a /\
+  forall i, 0 <= i < w * Z.of_nat n -> Z.testbit (uval w (bitnot w a)) i = negb (Z.testbit (uval w a) i).
+Proof. exact bitnot_ok. Qed.
+Print Assumptions C06_not.
+
+(* ---- is_zero / is_one ---- *)
+Theorem C06_is_zero : forall w n a, 0 <= w -> wf w n a -> is_zero a = (uval w a =? 0).
+Proof. exact is_zero_ok. Qed.
+Print Assumptions C06_is_zero.
+
+Theorem C06_is_one : forall w n a, 0 < w -> wf w n a -> is_one a = (uval w a =? 1).
+Proof. exact is_one_ok. Qed.
+Print Assumptions C06_is_one.
+
+(* ---- counts ---- *)
+Theorem C06_count_ones : forall w n a, 0 < w -> wf w n a ->
+  count_ones a = popcount (Z.to_nat (bits w n)) (uval w a).
+Proof. exact count_ones_ok. Qed.
+Print Assumptions C06_count_ones.
+
+(* the same count is the primitive popcount applied to the whole value *)
+Theorem C06_count_ones_whole : forall w n a, 0 < w -> wf w n a ->
+  count_ones a = u_count_ones (uval w a).
+Proof. exact count_ones_whole. Qed.
+Print Assumptions C06_count_ones_whole.
+
+Theorem C06_count_zeros : forall w n a, 0 < w -> wf w n a ->
+  count_zeros w a = bits w n - popcount (Z.to_nat (bits w n)) (uval w a).
+Proof. exact count_zeros_ok. Qed.
+Print Assumptions C06_count_zeros.
+
+Theorem C06_popcount_range : forall k x, 0 <= popcount k x <= Z.of_nat k.
+Proof. exact popcount_range. Qed.
+Print Assumptions C06_popcount_range.
+
+Theorem C06_leading_zeros : forall w n a, 0 < w -> wf w n a ->
+  leading_zeros w a = bits w n - bitlen (uval w a).
+Proof. exact leading_zeros_ok. Qed.
+Print Assumptions C06_leading_zeros.
+
+Theorem C06_bitlen_spec : forall x, 0 <= x ->
+  0 <= bitlen x /\ x < 2 ^ bitlen x /\ (0 < x -> 2 ^ (bitlen x - 1) <= x).
+Proof. exact bitlen_spec. Qed.
+Print Assumptions C06_bitlen_spec.
+
+Theorem C06_trailing_zeros : forall w n a, 0 < w -> wf w n a ->
+  (uval w a = 0 -> trailing_zeros w a = bits w n) /\
+  (uval w a <> 0 -> 0 <= trailing_zeros w a < bits w n /\
+     uval w a mod 2 ^ trailing_zeros w a = 0 /\ Z.testbit (uval w a) (trailing_zeros w a) = true).
+Proof. exact trailing_zeros_ok. Qed.
+Print Assumptions C06_trailing_zeros.
+
+(* trailing_zeros is the greatest k with 2^k | A *)
+Theorem C06_trailing_zeros_greatest : forall w n a j, 0 < w -> wf w n a -> uval w a <> 0 ->
+  0 <= j -> (uval w a mod 2 ^ j = 0 <-> j <= trailing_zeros w a).
+Proof. exact trailing_zeros_greatest. Qed.
+Print Assumptions C06_trailing_zeros_greatest.
+
+Theorem C06_leading_ones : forall w n a, 0 < w -> wf w n a ->
+  leading_ones w a = bits w n - bitlen (Mod w n - 1 - uval w a).
+Proof. exact leading_ones_ok. Qed.
+Print Assumptions C06_leading_ones.
+
+Theorem C06_trailing_ones : forall w n a, 0 < w -> wf w n a ->
+  let c := Mod w n - 1 - uval w a in
+  (c = 0 -> trailing_ones w a = bits w n) /\
+  (c <> 0 -> 0 <= trailing_ones w a < bits w n /\
+     c mod 2 ^ trailing_ones w a = 0 /\ Z.testbit c (trailing_ones w a) = true).
+Proof. exact trailing_ones_ok. Qed.
+Print Assumptions C06_trailing_ones.
+
+(* leading_ones / trailing_ones are literally the zero counts of the complement *)
+Theorem C06_leading_ones_not : forall w a, leading_ones w a = leading_zeros w (bitnot w a).
+Proof. exact leading_ones_not. Qed.
+Print Assumptions C06_leading_ones_not.
+Theorem C06_trailing_ones_not : forall w a, trailing_ones w a = trailing_zeros w (bitnot w a).
+Proof. exact trailing_ones_not. Qed.
+Print Assumptions C06_trailing_ones_not.
+
+Theorem C06_bits : forall w n a, 0 < w -> wf w n a -> bits_of w a = bitlen (uval w a).
+Proof. exact bits_of_ok. Qed.
+Print Assumptions C06_bits.
+
+(* ---- bit / set_bit / power_of_two ---- *)
+Theorem C06_bit : forall w n a i, 0 < w -> wf w n a -> 0 <= i ->
+  bit w a i = if i <? bits w n then Ret (Z.testbit (uval w a) i) else Panic.
+Proof. exact bit_ok. Qed.
+Print Assumptions C06_bit.
+
+Theorem C06_bit_panic : forall w n a i, 0 < w -> wf w n a -> 0 <= i ->
+  (bit w a i = Panic <-> Z.of_nat n <= i / w).
+Proof. exact bit_panic_iff. Qed.
+Print Assumptions C06_bit_panic.
+
+Theorem C06_set_bit : forall w n a i v, 0 < w -> wf w n a -> 0 <= i ->
+  (i < bits w n -> exists r, set_bit w a i v = Ret r /\ wf w n r /\
+     forall j, 0 <= j -> Z.testbit (uval w r) j = if j =? i then v else Z.testbit (uval w a) j) /\
+  (bits w n <= i -> set_bit w a i v = Panic).
+Proof. exact set_bit_ok. Qed.
+Print Assumptions C06_set_bit.
+
+Theorem C06_set_bit_panic : forall w n a i v, 0 < w -> wf w n a -> 0 <= i ->
+  (set_bit w a i v = Panic <-> Z.of_nat n <= i / w).
+Proof. exact set_bit_panic_iff. Qed.
+Print Assumptions C06_set_bit_panic.
+
+Theorem C06_power_of_two : forall w n k, 0 < w -> 0 <= k ->
+  (k < bits w n -> exists r, power_of_two w n k = Ret r /\ wf w n r /\ uval w r = 2 ^ k) /\
+  (bits w n <= k -> power_of_two w n k = Panic).
+Proof. exact power_of_two_ok. Qed.
+Print Assumptions C06_power_of_two.
+
+Theorem C06_power_of_two_panic : forall w n k, 0 < w -> 0 <= k ->
+  (power_of_two w n k = Panic <-> Z.of_nat n <= k / w).
+Proof. exact power_of_two_panic_iff. Qed.
+Print Assumptions C06_power_of_two_panic.
+
+(* ---- is_power_of_two ---- *)
+Theorem C06_U_is_power_of_two : forall w n a, 0 < w -> wf w n a ->
+  (U_is_power_of_two a = true <-> exists k, 0 <= k /\ uval w a = 2 ^ k).
+Proof. exact U_is_power_of_two_ok. Qed.
+Print Assumptions C06_U_is_power_of_two.
+
+Theorem C06_I_is_power_of_two : forall w n a, 0 < w -> (0 < n)%nat -> wf w n a ->
+  (I_is_power_of_two w a = true <-> 0 < sval w a /\ exists k, 0 <= k /\ sval w a = 2 ^ k).
+Proof. exact I_is_power_of_two_ok. Qed.
+Print Assumptions C06_I_is_power_of_two.
+
+(* ---- next_power_of_two ---- *)
+Theorem C06_next_pow2_spec : forall x, 0 <= x ->
+  x <= next_pow2 x /\ (exists k, 0 <= k /\ next_pow2 x = 2 ^ k) /\
+  (forall j, 0 <= j -> x <= 2 ^ j -> next_pow2 x <= 2 ^ j).
+Proof. exact next_pow2_spec. Qed.
+Print Assumptions C06_next_pow2_spec.
+
+Theorem C06_checked_next_power_of_two : forall w n a, 0 < w -> wf w n a ->
+  (next_pow2 (uval w a) < Mod w n ->
+     exists r, U_checked_next_power_of_two w a = Ret (Some r) /\ wf w n r /\ uval w r = next_pow2 (uval w a)) /\
+  (Mod w n <= next_pow2 (uval w a) -> U_checked_next_power_of_two w a = Ret None).
+Proof. exact U_checked_next_power_of_two_ok. Qed.
+Print Assumptions C06_checked_next_power_of_two.
+
+Theorem C06_wrapping_next_power_of_two : forall w n a, 0 < w -> wf w n a ->
+  (next_pow2 (uval w a) < Mod w n ->
+     exists r, U_wrapping_next_power_of_two w a = Ret r /\ wf w n r /\ uval w r = next_pow2 (uval w a)) /\
+  (Mod w n <= next_pow2 (uval w a) -> U_wrapping_next_power_of_two w a = Ret (ZERO n)).
+Proof. exact U_wrapping_next_power_of_two_ok. Qed.
+Print Assumptions C06_wrapping_next_power_of_two.
+
+Theorem C06_next_power_of_two : forall dbg w n a, 0 < w -> wf w n a ->
+  (next_pow2 (uval w a) < Mod w n ->
+     exists r, U_next_power_of_two dbg w a = Ret r /\ wf w n r /\ uval w r = next_pow2 (uval w a)) /\
+  (Mod w n <= next_pow2 (uval w a) ->
+     U_next_power_of_two dbg w a = if dbg then Panic else Ret (ZERO n)).
+Proof. exact U_next_power_of_two_ok. Qed.
+Print Assumptions C06_next_power_of_two.
+
+(* ---- reverse_bits / swap_bytes ---- *)
+Theorem C06_reverse_bits : forall w n a, 0 < w -> wf w n a ->
+  wf w n (reverse_bits w a) /\
+  (forall i, 0 <= i < bits w n ->
+     Z.testbit (uval w (reverse_bits w a)) i = Z.testbit (uval w a) (bits w n - 1 - i)) /\
+  reverse_bits w (reverse_bits w a) = a.
+Proof. exact reverse_bits_ok. Qed.
+Print Assumptions C06_reverse_bits.
+
+Theorem C06_swap_bytes : forall w n a, 0 < w -> w mod 8 = 0 -> wf w n a ->
+  let nbytes := w / 8 * Z.of_nat n in
+  wf w n (swap_bytes w a) /\
+  (forall i j, 0 <= i < nbytes -> 0 <= j < 8 ->
+     Z.testbit (uval w (swap_bytes w a)) (8 * i + j) = Z.testbit (uval w a) (8 * (nbytes - 1 - i) + j)) /\
+  swap_bytes w (swap_bytes w a) = a.
+Proof. exact swap_bytes_ok. Qed.
+Print Assumptions C06_swap_bytes.
+
+Theorem C06_swap_bytes_byte : forall w n a i, 0 < w -> w mod 8 = 0 -> wf w n a ->
+  0 <= i < w / 8 * Z.of_nat n ->
+  byte_of (uval w (swap_bytes w a)) i = byte_of (uval w a) (w / 8 * Z.of_nat n - 1 - i).
+Proof. exact swap_bytes_byte. Qed.
+Print Assumptions C06_swap_bytes_byte.
+
+(* ---- concrete instances (w = 8, n = 3): hypotheses satisfiable, values as expected ---- *)
+Example C06_ex_wf : wf 8 3 [0xf0; 0x0f; 0x01].
+Proof. apply wfb_wf. vm_compute. reflexivity. Qed.
+Example C06_ex_logic :
+  bitand [0xf0; 0x0f; 0x01] [0x3c; 0x3c; 0xff] = [0x30; 0x0c; 0x01] /\
+  bitxor [0xf0; 0x0f; 0x01] [0x3c; 0x3c; 0xff] = [0xcc; 0x33; 0xfe] /\
+  bitnot 8 [0xf0; 0x0f; 0x01] = [0x0f; 0xf0; 0xfe].
+Proof. vm_compute. repeat split; reflexivity. Qed.
+Example C06_ex_counts :
+  count_ones [0xf0; 0x0f; 0x01] = 9 /\ count_zeros 8 [0xf0; 0x0f; 0x01] = 15 /\
+  leading_zeros 8 [0xf0; 0x0f; 0x01] = 7 /\ trailing_zeros 8 [0xf0; 0x0f; 0x01] = 4 /\
+  leading_ones 8 [0xf0; 0xff; 0xff] = 20 /\ trailing_ones 8 [0xff; 0x07; 0x00] = 11 /\
+  bits_of 8 [0xf0; 0x0f; 0x01] = 17 /\ popcount 24 0x010ff0 = 9 /\ bitlen 0x010ff0 = 17.
+Proof. vm_compute. repeat split; reflexivity. Qed.
+Example C06_ex_zero_counts :
+  leading_zeros 8 [0; 0; 0] = 24 /\ trailing_zeros 8 [0; 0; 0] = 24 /\ bits_of 8 [0; 0; 0] = 0.
+Proof. vm_compute. repeat split; reflexivity. Qed.
+Example C06_ex_bit :
+  bit 8 [0xf0; 0x0f; 0x01] 16 = Ret true /\ bit 8 [0xf0; 0x0f; 0x01] 17 = Ret false /\
+  bit 8 [0xf0; 0x0f; 0x01] 24 = Panic /\
+  set_bit 8 [0xf0; 0x0f; 0x01] 3 true = Ret [0xf8; 0x0f; 0x01] /\
+  set_bit 8 [0xf0; 0x0f; 0x01] 16 false = Ret [0xf0; 0x0f; 0x00] /\
+  set_bit 8 [0xf0; 0x0f; 0x01] 24 true = Panic /\
+  power_of_two 8 3 23 = Ret [0; 0; 0x80] /\ power_of_two 8 3 24 = Panic.
+Proof. vm_compute. repeat split; reflexivity. Qed.
+Example C06_ex_pow2 :
+  U_is_power_of_two [0; 0x10; 0] = true /\ U_is_power_of_two [0xf0; 0x0f; 0x01] = false /\
+  I_is_power_of_two 8 [0; 0; 0x80] = false /\ U_is_power_of_two [0; 0; 0x80] = true /\
+  U_checked_next_power_of_two 8 [0xf0; 0x0f; 0x01] = Ret (Some [0; 0; 0x02]) /\
+  U_checked_next_power_of_two 8 [0; 0; 0] = Ret (Some [1; 0; 0]) /\
+  U_checked_next_power_of_two 8 [1; 0; 0x80] = Ret None /\
+  U_wrapping_next_power_of_two 8 [1; 0; 0x80] = Ret [0; 0; 0] /\
+  U_next_power_of_two true 8 [1; 0; 0x80] = Panic /\
+  next_pow2 0x010ff0 = 0x020000 /\ next_pow2 0 = 1 /\ next_pow2 0x800001 = 0x1000000.
+Proof. vm_compute. repeat split; reflexivity. Qed.
+Example C06_ex_rev :
+  swap_bytes 8 [0xf0; 0x0f; 0x01] = [0x01; 0x0f; 0xf0] /\
+  reverse_bits 8 [0xf0; 0x0f; 0x01] = [0x80; 0xf0; 0x0f] /\
+  swap_bytes 16 [0x1234; 0xabcd] = [0xcdab; 0x3412].
+Proof. vm_compute. repeat split; reflexivity. Qed.
+Example C06_ex_is_zero_one : is_zero [0; 0; 0] = true /\ is_one [1; 0; 0] = true /\ is_one [1; 0; 1] = false.
+Proof. vm_compute. repeat split; reflexivity. Qed.
